@@ -9,6 +9,9 @@ import Splipy.Lemmas.C05RaisesTo
 import Splipy.Lemmas.C12Periodic
 import Splipy.Lemmas.C12All
 import Splipy.Lemmas.C12Core
+import Splipy.Lemmas.C12Entries
+import Splipy.Lemmas.C12Common
+import Splipy.Lemmas.C12PerPair
 import Splipy.Lemmas.C12Examples
 import Mathlib.Data.Rat.Floor
 import Mathlib.Tactic.NormNum
@@ -29,6 +32,13 @@ Vocabulary (helper files `Lemmas/C12*.lean`):
   vector written as distinct values with multiplicities and the separation hypothesis (C05);
 * `C06.WF o m`, `C06.toTP o m comp`, `C06.TP.eval` — a well-formed object with `m` directions and the
   defining (wrapped) tensor-product sum of its homogeneous component `comp` (C06);
+* `C12.ClampedCont b` (decidable) — `b` is non-periodic of order `≥ 2`, its knot vector is `order` copies of
+  `start`, interior knots strictly inside the domain each at most `order - 1` times, `order` copies of `end`;
+  `C12.PairSeparated δ l₁ l₂` (decidable) — any two knots of the two lists are equal or more than `δ` apart;
+  `C12.commonEntries b₁ b₂` (computable) — the merged run-length encoding of the interior knots of the two
+  NORMALISED knot vectors: one entry (value, multiplicity in `b₁`, multiplicity in `b₂`; `0` = absent) per
+  distinct knot; `C12.unionBasis p₁ p₂ L` — the clamped basis of order `max p₁ p₂` on `[0,1]` over the entries
+  `L` with multiplicities `max (m₁ + (p - p₁)) (m₂ + (p - p₂))` (absent stays absent);
 * `C12.SameMap m o o'` — same number of components and every component's defining sum agrees at all
   parameters and sides; `C12.Rescaled m d a b o o'` — the same with `u_d ↦ (u_d - a)/(b - a)`.
 -/
@@ -199,7 +209,8 @@ that is actually made, each in the form `SameMapOn m i · ·` (same domain in di
   for every fibre of a non-periodic direction; the identification of the fibre splines with the
   tensor-product sum `C06.TP.eval` is `C12.toTP_eval_fibre`, so for a NON-periodic direction this
   hypothesis is discharged for any pardim — `C12.insertKnots_sameMap`, used in `C12_open_curves_partial` and
-  `C12_open_direction_partial` —; periodic insertion is `C04_periodic_partial`).
+  `C12_open_direction_partial` —; periodic insertion is `C04_periodic_partial`, lifted under the guard
+  `n ≥ p + k` in `C12.insertKnots_sameMapOn_periodic` and used in `C12_periodic_pair_partial`).
 So the theorem is complete exactly when periodicities and orders already agree and nothing has to be
 inserted, and otherwise partial to the extent C08 / C05 / C04 are.  The correspondence run decides
 all six hypotheses in exact rational arithmetic for every generated pair (`same1`, `same2`). -/
@@ -273,20 +284,45 @@ theorem C12_geometry_partial {m : ℕ} (tol : K) (c1 c2 : Bool) (s a b c r : Obj
 
 Conventions for the theorems of this section.  `s` is the pair the per-direction body of
 `make_splines_identical` starts from (the pair after `make_splines_compatible`); both objects are
-well formed (`C06.WF`).  The `reparam` stage is NOT a hypothesis: it succeeds for well-formed objects
-(`C12.stageReparam_succeeds`, property C06) and its result in direction `i` is the normalised basis
-`C06.reparamOk (s.j.basis i) 0 1` (knots `(τ - start)/(end - start)`).  The knot hypotheses are put on
-these normalised bases: both are clamped, of orders `p₁, p₂`, written over the common end knots
-`x0 < xl` (`= 0, 1`) and ONE common list `L` of interior entries (value, multiplicity in object 1,
-multiplicity in object 2; `0` = absent from that object) — "knots pairwise equal or separated".
+well formed (`C06.WF`, which contains the validity of every basis).  The `reparam` stage is NOT a
+hypothesis: it succeeds for well-formed objects (`C12.stageReparam_succeeds`, property C06) and its result
+in direction `i` is the normalised basis `C06.reparamOk (s.j.basis i) 0 1` (knots
+`(τ - start)/(end - start)`).
+
+`C12_open_curves_partial`, `C12_open_surfaces_partial`, `C12_open_volumes_partial` and the two
+`…_all_directions_partial` theorems put their knot hypotheses DIRECTLY ON THE TWO INPUT BASES of the
+direction, all decidable: `ClampedCont` for each, and `PairSeparated δ` of the two normalised knot vectors
+(`δ = 2·(max p₁ p₂ - 1)·tol`, the Schoenberg–Whitney spacing of property C05).  That every such pair can be
+written over ONE common list of interior entries is proved (`C12_common_entries`), with the list computed
+(`commonEntries`).  `C12_open_curves_same_order_partial` and `C12_open_direction_partial` (weaker
+separation `tol`, resp. any pardim with `RaisesTo` as hypothesis) are still stated over an explicit
+common entry list `L`.
 
 GUARDS that go beyond the property's quantifier (hence `_partial`): orders `≥ 2`; direction `i`
-non-periodic and clamped; the two normalised knot vectors must be presented in the common-entry form
-(that every pair with a separated union can be so written is not proved); distinct values more than
-`tol` — for the theorems that elevate the order `2·(max p₁ p₂ - 1)·tol`, the Schoenberg–Whitney spacing
-of property C05 — apart; continuity `m_j ≤ p_j - 1` where the order is elevated; for surfaces and
-volumes the two no-exception side conditions of a multi-directional `raise_order` (`GrevilleOK` of the
-untouched directions, `raiseGuard`). -/
+non-periodic, clamped and continuous in both objects; knots of the two normalised vectors pairwise equal
+or more than `δ` apart (closer distinct knots — which the code treats with its tolerance — are not
+covered); for surfaces and volumes the two no-exception side conditions of a multi-directional
+`raise_order` (`GrevilleOK` of the untouched directions, `raiseGuard`). -/
+
+/-- **Every pair of clamped continuous knot vectors with separated knots has the common-entry form, and
+the entries are computed.**  `b₁`, `b₂` valid and `ClampedCont` (orders `≥ 2`, any domains, any orders),
+their normalised knots (after `reparam()` to `[0,1]`) pairwise equal or more than `δ ≥ 0` apart.  Then with
+`L = commonEntries b₁ b₂` — one entry (value, multiplicity in `b₁`, multiplicity in `b₂`) per distinct
+interior knot, `0` where absent — each normalised basis IS the clamped basis of its order over the distinct
+values `0, L.map (·.1), 1` with its multiplicities; the distinct values are increasing and more than `δ`
+apart; every multiplicity is at most `p_j - 1`. -/
+theorem C12_common_entries (δ : K) (hδ : 0 ≤ δ) (b1 b2 : Basis K) (hv1 : b1.Valid) (hv2 : b2.Valid)
+    (hc1 : ClampedCont b1) (hc2 : ClampedCont b2)
+    (hsep : PairSeparated δ (C06.reparamOk b1 0 1).knots.toList (C06.reparamOk b2 0 1).knots.toList) :
+    C06.reparamOk b1 0 1
+        = openBasis b1.order (clampedU 0 1 ((commonEntries b1 b2).map (·.1)))
+            (clampedM b1.order ((commonEntries b1 b2).map (·.2.1)))
+      ∧ C06.reparamOk b2 0 1
+        = openBasis b2.order (clampedU 0 1 ((commonEntries b1 b2).map (·.1)))
+            (clampedM b2.order ((commonEntries b1 b2).map (·.2.2)))
+      ∧ Separated δ (clampedU 0 1 ((commonEntries b1 b2).map (·.1)))
+      ∧ ∀ e ∈ commonEntries b1 b2, e.2.1 ≤ b1.order - 1 ∧ e.2.2 ≤ b2.order - 1 :=
+  common_entries δ hδ b1 b2 hv1 hv2 hc1 hc2 hsep
 
 /-- **Two open curves of the same order** (weakest separation: distinct values more than `tol` apart).
 `make_splines_identical` (direction 0) succeeds; both curves end with the SAME basis (order `p`,
@@ -310,38 +346,36 @@ theorem C12_open_curves_same_order_partial (tol : K) (htol : 0 < tol) (c1 c2 : B
     (stageReparam_succeeds hw1 hw2 (0 : Fin 1) (by decide))
     ((reparamObj_basis hw1 (0 : Fin 1)).trans hb1) ((reparamObj_basis hw2 (0 : Fin 1)).trans hb2)
 
-/-- **Two clamped curves of DIFFERENT orders — no hypothesis on the called methods.**  Orders
-`p₁, p₂ ≥ 2`, continuity `m_j ≤ p_j - 1`, distinct values more than `2·(p-1)·tol` apart, `p = max p₁ p₂`
-(with the default `tol = 1e-10` that is `< 1e-9` for `p ≤ 5`).  Whatever the classes of the two
-objects (`Curve.raise_order` override or the base-class method):
+/-- **Two clamped curves of ANY orders — hypotheses on the two input bases only, none on the called
+methods.**  Both curves well formed; their bases `ClampedCont` (orders `p₁, p₂ ≥ 2`, clamped, continuous);
+the knots of the two normalised knot vectors pairwise equal or more than `2·(p-1)·tol` apart,
+`p = max p₁ p₂` (with the default `tol = 1e-10` that is `< 1e-9` for `p ≤ 5`).  Whatever the classes of the
+two objects (`Curve.raise_order` override or the base-class method):
 * `make_splines_identical` (direction 0) SUCCEEDS;
-* both curves end with the SAME basis: order `p`, non-periodic, on `[x0, xl]`, knot vector = the union
-  in which a knot present in curve `j` counts `m_j + (p - p_j)` times (`raise_order` keeps the
-  continuity `p_j - 1 - m_j`) and the larger of the two counts is taken;
+* both curves end with the SAME basis, the `unionBasis` over the computed `commonEntries`: order `p`,
+  non-periodic, on `[0,1]`, knot vector = the union in which a knot present in curve `j` counts
+  `m_j + (p - p_j)` times (`raise_order` keeps the continuity `p_j - 1 - m_j`) and the larger of the two
+  counts is taken;
 * each curve evaluates at `(u - start)/(end - start)` to exactly the map it represented before: every
   homogeneous component, every side, every parameter (hence also the projected rational curve).
-Ingredients: `reparam` = C06; `raise_order` = C05 in full (`C05_geometry_partial` + degree-elevation
-inclusion + Schoenberg–Whitney, read at the Cox–de Boor level through `C12.elevation_both`); insertion
-= C04 (`C04.insertKnots_fibres`); counts and union knot vector = `C12_knot_merge_partial`.
-`_partial`: the guards listed at the head of this section. -/
-theorem C12_open_curves_partial (tol : K) (htol : 0 < tol) (c1 c2 : Bool) (p1 p2 : ℕ) (hp1 : 2 ≤ p1)
-    (hp2 : 2 ≤ p2) (x0 xl : K) (L : List (K × ℕ × ℕ)) (hm : ∀ e ∈ L, e.2.1 ≤ p1 - 1 ∧ e.2.2 ≤ p2 - 1)
-    (hgap : Separated (2 * ((max p1 p2 - 1 : ℕ) : K) * tol) (clampedU x0 xl (L.map (·.1))))
-    (s : Obj K × Obj K) (hw1 : C06.WF s.1 1) (hw2 : C06.WF s.2 1)
-    (hb1 : C06.reparamOk (s.1.basis 0) 0 1
-      = openBasis p1 (clampedU x0 xl (L.map (·.1))) (clampedM p1 (L.map (·.2.1))))
-    (hb2 : C06.reparamOk (s.2.basis 0) 0 1
-      = openBasis p2 (clampedU x0 xl (L.map (·.1))) (clampedM p2 (L.map (·.2.2)))) :
+Ingredients: the common-entry form = `C12_common_entries`; `reparam` = C06; `raise_order` = C05 in full
+(`C05_geometry_partial` + degree-elevation inclusion + Schoenberg–Whitney, read at the Cox–de Boor level
+through `C12.elevation_both`); insertion = C04 (`C04.insertKnots_fibres`); counts and union knot vector =
+`C12_knot_merge_partial`.  `_partial`: the guards listed at the head of this section. -/
+theorem C12_open_curves_partial (tol : K) (htol : 0 < tol) (c1 c2 : Bool) (s : Obj K × Obj K)
+    (hw1 : C06.WF s.1 1) (hw2 : C06.WF s.2 1)
+    (hc1 : ClampedCont (s.1.basis 0)) (hc2 : ClampedCont (s.2.basis 0))
+    (hsep : PairSeparated (2 * ((max (s.1.basis 0).order (s.2.basis 0).order - 1 : ℕ) : K) * tol)
+      (C06.reparamOk (s.1.basis 0) 0 1).knots.toList (C06.reparamOk (s.2.basis 0) 0 1).knots.toList) :
     ∃ r, identicalDir tol c1 c2 s 0 = .ok r
-      ∧ r.1.basis 0 = openBasis (max p1 p2) (clampedU x0 xl (L.map (·.1)))
-          (clampedM (max p1 p2) (L.map (fun e =>
-            max (raisedMult (max p1 p2 - p1) e.2.1) (raisedMult (max p1 p2 - p2) e.2.2))))
+      ∧ r.1.basis 0 = unionBasis (s.1.basis 0).order (s.2.basis 0).order
+          (commonEntries (s.1.basis 0) (s.2.basis 0))
       ∧ r.2.basis 0 = r.1.basis 0
       ∧ Rescaled 1 0 (s.1.basis 0).start (s.1.basis 0).stop s.1 r.1
-      ∧ Rescaled 1 0 (s.2.basis 0).start (s.2.basis 0).stop s.2 r.2 :=
-  core_open_curves tol htol c1 c2 p1 p2 hp1 hp2 x0 xl L hm hgap s _ hw1 hw2
-    (stageReparam_succeeds hw1 hw2 (0 : Fin 1) (by decide))
-    ((reparamObj_basis hw1 (0 : Fin 1)).trans hb1) ((reparamObj_basis hw2 (0 : Fin 1)).trans hb2)
+      ∧ Rescaled 1 0 (s.2.basis 0).start (s.2.basis 0).stop s.2 r.2 := by
+  have hL := commonForm_entries _ (by positivity) _ _ (hw1.valid (0 : Fin 1)) (hw2.valid (0 : Fin 1)) hc1 hc2 hsep
+  exact open_curves_entries tol htol c1 c2 _ _ hc1.order_ge hc2.order_ge 0 1 _ hL.2.2.2 hL.2.2.1 s hw1 hw2
+    hL.1 hL.2.1
 
 /-- **One non-periodic direction of a curve, surface or volume** (`m` = parametric dimension,
 direction `i`; the OTHER directions are arbitrary — other orders, knots, periodic or not).  Distinct
@@ -387,137 +421,130 @@ theorem C12_open_direction_partial {m : ℕ} (tol : K) (htol : 0 < tol) (c1 c2 :
     (stageReparam_succeeds hw1 hw2 i hi)
     ((reparamObj_basis hw1 i).trans hb1) ((reparamObj_basis hw2 i).trans hb2) H_raise₁ H_raise₂
 
-/-- **One clamped direction `i` of two SURFACES of DIFFERENT orders — no hypothesis on the geometry of
-the called methods.**  `C12_open_direction_partial` with `m = 2`, both objects not `Curve`s, and
-`RaisesTo` discharged by property C05 (`Lemmas/C05RaisesTo.lean`): direction `i` continuous
-(`m_j ≤ p_j - 1`), distinct values more than `2·(max p₁ p₂ - 1)·tol` apart.  Because `raise_order`
-re-interpolates EVERY direction (also the untouched ones), two side conditions remain, needed only for
-an object whose order is actually raised, both about the model (like the code) not raising an
-exception rather than about geometry:
+/-- **One clamped direction `i` of two SURFACES of ANY orders — hypotheses on the two input bases of
+that direction, none on the geometry of the called methods.**  Both objects well formed and not `Curve`s;
+in direction `i` both bases `ClampedCont` (orders `≥ 2`, clamped, continuous) and the knots of the two
+normalised knot vectors pairwise equal or more than `2·(max p₁ p₂ - 1)·tol` apart; the OTHER directions are
+arbitrary (other orders, knots, periodic or not).  `RaisesTo` of `C12_open_direction_partial` is discharged
+by property C05 (`Lemmas/C05RaisesTo.lean`).  Because `raise_order` re-interpolates EVERY direction (also
+the untouched ones), two side conditions remain, needed only for an object whose order is actually raised
+(the one of smaller order), both about the model (like the code) not raising an exception rather than
+about geometry:
 * `GrevilleOK tol (s.j.basis k)` for the other directions `k ≠ i` — the Greville collocation matrix
-  there is invertible (`np.linalg.inv` does not raise `LinAlgError`); proved for clamped continuous
-  bases (`grevilleOK_clamped`, `C12.grevilleOK_common`), any valid basis is accepted, periodic included;
+  there is invertible (`np.linalg.inv` does not raise `LinAlgError`); any valid basis is accepted, periodic
+  included; for a `ClampedCont` basis it follows from the decidable `PairSeparated` of its own knots
+  (`C12.grevilleOK_of_clampedCont`);
 * `raiseGuard` of the re-parametrised object is `ok true` — the guard of `raise_order` does not raise;
   automatic when direction 0 is clamped (`raiseGuard_clamped`, `C12.raiseGuard_common`) or periodic
   (`raiseGuard_periodic`).
-Conclusion as in `C12_open_direction_partial`, including well-formedness of both results.
-`_partial`: the guards of this section and the two side conditions. -/
-theorem C12_open_surfaces_partial (tol : K) (htol : 0 < tol) (p1 p2 : ℕ) (hp1 : 2 ≤ p1) (hp2 : 2 ≤ p2) (x0 xl : K)
-    (L : List (K × ℕ × ℕ)) (hm : ∀ e ∈ L, e.2.1 ≤ p1 - 1 ∧ e.2.2 ≤ p2 - 1)
-    (hgap : Separated (2 * ((max p1 p2 - 1 : ℕ) : K) * tol) (clampedU x0 xl (L.map (·.1))))
-    (i : Fin 2) (s : Obj K × Obj K) (hw1 : C06.WF s.1 2) (hw2 : C06.WF s.2 2)
-    (hb1 : C06.reparamOk (s.1.basis i) 0 1
-      = openBasis p1 (clampedU x0 xl (L.map (·.1))) (clampedM p1 (L.map (·.2.1))))
-    (hb2 : C06.reparamOk (s.2.basis i) 0 1
-      = openBasis p2 (clampedU x0 xl (L.map (·.1))) (clampedM p2 (L.map (·.2.2))))
-    (hother₁ : p1 < max p1 p2 → ∀ k : Fin 2, k ≠ i → GrevilleOK tol (s.1.basis k))
-    (hother₂ : p2 < max p1 p2 → ∀ k : Fin 2, k ≠ i → GrevilleOK tol (s.2.basis k))
-    (hguard₁ : p1 < max p1 p2 → Obj.raiseGuard tol (C06.reparamObj s.1 i 0 1).bases.toList = .ok true)
-    (hguard₂ : p2 < max p1 p2 → Obj.raiseGuard tol (C06.reparamObj s.2 i 0 1).bases.toList = .ok true) :
+Conclusion: the call succeeds; in direction `i` both end with the same basis, the `unionBasis` over the
+computed `commonEntries`; the bases of the other directions are unchanged; each object is the exact
+rescaling of its input in direction `i` (every homogeneous component, every side, every parameter); both
+results are well formed.  `_partial`: the guards of this section and the two side conditions. -/
+theorem C12_open_surfaces_partial (tol : K) (htol : 0 < tol) (i : Fin 2) (s : Obj K × Obj K)
+    (hw1 : C06.WF s.1 2) (hw2 : C06.WF s.2 2)
+    (hc1 : ClampedCont (s.1.basis i)) (hc2 : ClampedCont (s.2.basis i))
+    (hsep : PairSeparated (2 * ((max (s.1.basis i).order (s.2.basis i).order - 1 : ℕ) : K) * tol)
+      (C06.reparamOk (s.1.basis i) 0 1).knots.toList (C06.reparamOk (s.2.basis i) 0 1).knots.toList)
+    (hother₁ : (s.1.basis i).order < (s.2.basis i).order → ∀ k : Fin 2, k ≠ i → GrevilleOK tol (s.1.basis k))
+    (hother₂ : (s.2.basis i).order < (s.1.basis i).order → ∀ k : Fin 2, k ≠ i → GrevilleOK tol (s.2.basis k))
+    (hguard₁ : (s.1.basis i).order < (s.2.basis i).order →
+      Obj.raiseGuard tol (C06.reparamObj s.1 i 0 1).bases.toList = .ok true)
+    (hguard₂ : (s.2.basis i).order < (s.1.basis i).order →
+      Obj.raiseGuard tol (C06.reparamObj s.2 i 0 1).bases.toList = .ok true) :
     ∃ r, identicalDir tol false false s i = .ok r
-      ∧ r.1.basis i = openBasis (max p1 p2) (clampedU x0 xl (L.map (·.1)))
-          (clampedM (max p1 p2) (L.map (fun e =>
-            max (raisedMult (max p1 p2 - p1) e.2.1) (raisedMult (max p1 p2 - p2) e.2.2))))
+      ∧ r.1.basis i = unionBasis (s.1.basis i).order (s.2.basis i).order
+          (commonEntries (s.1.basis i) (s.2.basis i))
       ∧ r.2.basis i = r.1.basis i
       ∧ (∀ k : Fin 2, k ≠ i → r.1.basis k = s.1.basis k ∧ r.2.basis k = s.2.basis k)
       ∧ Rescaled 2 i (s.1.basis i).start (s.1.basis i).stop s.1 r.1
       ∧ Rescaled 2 i (s.2.basis i).start (s.2.basis i).stop s.2 r.2
-      ∧ C06.WF r.1 2 ∧ C06.WF r.2 2 :=
-  core_open_surfaces tol htol p1 p2 hp1 hp2 x0 xl L hm hgap i s _ hw1 hw2
-    (stageReparam_succeeds hw1 hw2 i (by have := i.isLt; omega))
-    ((reparamObj_basis hw1 i).trans hb1) ((reparamObj_basis hw2 i).trans hb2)
-    (fun h k hk => by
-      show GrevilleOK tol ((C06.reparamObj s.1 i 0 1).basis k)
-      rw [reparamObj_basis_ne s.1 i k (fun e => hk (Fin.ext e))]; exact hother₁ h k hk)
-    (fun h k hk => by
-      show GrevilleOK tol ((C06.reparamObj s.2 i 0 1).basis k)
-      rw [reparamObj_basis_ne s.2 i k (fun e => hk (Fin.ext e))]; exact hother₂ h k hk)
-    hguard₁ hguard₂
+      ∧ C06.WF r.1 2 ∧ C06.WF r.2 2 := by
+  have hL := commonForm_entries _ (by positivity) _ _ (hw1.valid i) (hw2.valid i) hc1 hc2 hsep
+  exact open_surfaces_entries tol htol _ _ hc1.order_ge hc2.order_ge 0 1 _ hL.2.2.2 hL.2.2.1 i s hw1 hw2 hL.1 hL.2.1
+    (fun h => hother₁ ((lt_max_iff.mp h).resolve_left (lt_irrefl _)))
+    (fun h => hother₂ ((lt_max_iff.mp h).resolve_right (lt_irrefl _)))
+    (fun h => hguard₁ ((lt_max_iff.mp h).resolve_left (lt_irrefl _)))
+    (fun h => hguard₂ ((lt_max_iff.mp h).resolve_right (lt_irrefl _)))
 
-/-- **One clamped direction `i` of two VOLUMES of DIFFERENT orders — no hypothesis on the geometry of
-the called methods.**  `C12_open_direction_partial` with `m = 3`, both objects not `Curve`s, and
-`RaisesTo` discharged by property C05 (`Lemmas/C05RaisesTo.lean`): direction `i` continuous
-(`m_j ≤ p_j - 1`), distinct values more than `2·(max p₁ p₂ - 1)·tol` apart.  Because `raise_order`
-re-interpolates EVERY direction (also the untouched ones), two side conditions remain, needed only for
-an object whose order is actually raised, both about the model (like the code) not raising an
-exception rather than about geometry:
+/-- **One clamped direction `i` of two VOLUMES of ANY orders — hypotheses on the two input bases of
+that direction, none on the geometry of the called methods.**  Both objects well formed and not `Curve`s;
+in direction `i` both bases `ClampedCont` (orders `≥ 2`, clamped, continuous) and the knots of the two
+normalised knot vectors pairwise equal or more than `2·(max p₁ p₂ - 1)·tol` apart; the OTHER directions are
+arbitrary (other orders, knots, periodic or not).  `RaisesTo` of `C12_open_direction_partial` is discharged
+by property C05 (`Lemmas/C05RaisesTo.lean`).  Because `raise_order` re-interpolates EVERY direction (also
+the untouched ones), two side conditions remain, needed only for an object whose order is actually raised
+(the one of smaller order), both about the model (like the code) not raising an exception rather than
+about geometry:
 * `GrevilleOK tol (s.j.basis k)` for the other directions `k ≠ i` — the Greville collocation matrix
-  there is invertible (`np.linalg.inv` does not raise `LinAlgError`); proved for clamped continuous
-  bases (`grevilleOK_clamped`, `C12.grevilleOK_common`), any valid basis is accepted, periodic included;
+  there is invertible (`np.linalg.inv` does not raise `LinAlgError`); any valid basis is accepted, periodic
+  included; for a `ClampedCont` basis it follows from the decidable `PairSeparated` of its own knots
+  (`C12.grevilleOK_of_clampedCont`);
 * `raiseGuard` of the re-parametrised object is `ok true` — the guard of `raise_order` does not raise;
   automatic when direction 0 is clamped (`raiseGuard_clamped`, `C12.raiseGuard_common`) or periodic
   (`raiseGuard_periodic`).
-Conclusion as in `C12_open_direction_partial`, including well-formedness of both results.
-`_partial`: the guards of this section and the two side conditions. -/
-theorem C12_open_volumes_partial (tol : K) (htol : 0 < tol) (p1 p2 : ℕ) (hp1 : 2 ≤ p1) (hp2 : 2 ≤ p2) (x0 xl : K)
-    (L : List (K × ℕ × ℕ)) (hm : ∀ e ∈ L, e.2.1 ≤ p1 - 1 ∧ e.2.2 ≤ p2 - 1)
-    (hgap : Separated (2 * ((max p1 p2 - 1 : ℕ) : K) * tol) (clampedU x0 xl (L.map (·.1))))
-    (i : Fin 3) (s : Obj K × Obj K) (hw1 : C06.WF s.1 3) (hw2 : C06.WF s.2 3)
-    (hb1 : C06.reparamOk (s.1.basis i) 0 1
-      = openBasis p1 (clampedU x0 xl (L.map (·.1))) (clampedM p1 (L.map (·.2.1))))
-    (hb2 : C06.reparamOk (s.2.basis i) 0 1
-      = openBasis p2 (clampedU x0 xl (L.map (·.1))) (clampedM p2 (L.map (·.2.2))))
-    (hother₁ : p1 < max p1 p2 → ∀ k : Fin 3, k ≠ i → GrevilleOK tol (s.1.basis k))
-    (hother₂ : p2 < max p1 p2 → ∀ k : Fin 3, k ≠ i → GrevilleOK tol (s.2.basis k))
-    (hguard₁ : p1 < max p1 p2 → Obj.raiseGuard tol (C06.reparamObj s.1 i 0 1).bases.toList = .ok true)
-    (hguard₂ : p2 < max p1 p2 → Obj.raiseGuard tol (C06.reparamObj s.2 i 0 1).bases.toList = .ok true) :
+Conclusion: the call succeeds; in direction `i` both end with the same basis, the `unionBasis` over the
+computed `commonEntries`; the bases of the other directions are unchanged; each object is the exact
+rescaling of its input in direction `i` (every homogeneous component, every side, every parameter); both
+results are well formed.  `_partial`: the guards of this section and the two side conditions. -/
+theorem C12_open_volumes_partial (tol : K) (htol : 0 < tol) (i : Fin 3) (s : Obj K × Obj K)
+    (hw1 : C06.WF s.1 3) (hw2 : C06.WF s.2 3)
+    (hc1 : ClampedCont (s.1.basis i)) (hc2 : ClampedCont (s.2.basis i))
+    (hsep : PairSeparated (2 * ((max (s.1.basis i).order (s.2.basis i).order - 1 : ℕ) : K) * tol)
+      (C06.reparamOk (s.1.basis i) 0 1).knots.toList (C06.reparamOk (s.2.basis i) 0 1).knots.toList)
+    (hother₁ : (s.1.basis i).order < (s.2.basis i).order → ∀ k : Fin 3, k ≠ i → GrevilleOK tol (s.1.basis k))
+    (hother₂ : (s.2.basis i).order < (s.1.basis i).order → ∀ k : Fin 3, k ≠ i → GrevilleOK tol (s.2.basis k))
+    (hguard₁ : (s.1.basis i).order < (s.2.basis i).order →
+      Obj.raiseGuard tol (C06.reparamObj s.1 i 0 1).bases.toList = .ok true)
+    (hguard₂ : (s.2.basis i).order < (s.1.basis i).order →
+      Obj.raiseGuard tol (C06.reparamObj s.2 i 0 1).bases.toList = .ok true) :
     ∃ r, identicalDir tol false false s i = .ok r
-      ∧ r.1.basis i = openBasis (max p1 p2) (clampedU x0 xl (L.map (·.1)))
-          (clampedM (max p1 p2) (L.map (fun e =>
-            max (raisedMult (max p1 p2 - p1) e.2.1) (raisedMult (max p1 p2 - p2) e.2.2))))
+      ∧ r.1.basis i = unionBasis (s.1.basis i).order (s.2.basis i).order
+          (commonEntries (s.1.basis i) (s.2.basis i))
       ∧ r.2.basis i = r.1.basis i
       ∧ (∀ k : Fin 3, k ≠ i → r.1.basis k = s.1.basis k ∧ r.2.basis k = s.2.basis k)
       ∧ Rescaled 3 i (s.1.basis i).start (s.1.basis i).stop s.1 r.1
       ∧ Rescaled 3 i (s.2.basis i).start (s.2.basis i).stop s.2 r.2
-      ∧ C06.WF r.1 3 ∧ C06.WF r.2 3 :=
-  core_open_volumes tol htol p1 p2 hp1 hp2 x0 xl L hm hgap i s _ hw1 hw2
-    (stageReparam_succeeds hw1 hw2 i (by have := i.isLt; omega))
-    ((reparamObj_basis hw1 i).trans hb1) ((reparamObj_basis hw2 i).trans hb2)
-    (fun h k hk => by
-      show GrevilleOK tol ((C06.reparamObj s.1 i 0 1).basis k)
-      rw [reparamObj_basis_ne s.1 i k (fun e => hk (Fin.ext e))]; exact hother₁ h k hk)
-    (fun h k hk => by
-      show GrevilleOK tol ((C06.reparamObj s.2 i 0 1).basis k)
-      rw [reparamObj_basis_ne s.2 i k (fun e => hk (Fin.ext e))]; exact hother₂ h k hk)
-    hguard₁ hguard₂
+      ∧ C06.WF r.1 3 ∧ C06.WF r.2 3 := by
+  have hL := commonForm_entries _ (by positivity) _ _ (hw1.valid i) (hw2.valid i) hc1 hc2 hsep
+  exact open_volumes_entries tol htol _ _ hc1.order_ge hc2.order_ge 0 1 _ hL.2.2.2 hL.2.2.1 i s hw1 hw2 hL.1 hL.2.1
+    (fun h => hother₁ ((lt_max_iff.mp h).resolve_left (lt_irrefl _)))
+    (fun h => hother₂ ((lt_max_iff.mp h).resolve_right (lt_irrefl _)))
+    (fun h => hguard₁ ((lt_max_iff.mp h).resolve_left (lt_irrefl _)))
+    (fun h => hguard₂ ((lt_max_iff.mp h).resolve_right (lt_irrefl _)))
 
-/-- **`make_splines_identical(a, b)` with `direction=None` on two clamped SURFACES of different orders
-and knots in BOTH directions — the composed statement.**  `o1`, `o2` are well-formed surfaces (rational
-or not, any dimensions); for each direction `i`: orders `p₁ i, p₂ i ≥ 2`, the normalised bases in
-common-entry form over `L i`, continuity `m_j ≤ p_j - 1`, distinct values more than
-`2·(max (p₁ i) (p₂ i) - 1)·tol` apart.  Then the whole call — `make_splines_compatible`, then the loop over
-the directions 0 and 1, each of which repeats `make_splines_compatible` (the identity by then),
-`check_direction`, `reparam`, `lower_periodic` (nothing to do), `raise_order`, the two insertion passes —
-SUCCEEDS, and with `c = make_splines_compatible(o1, o2)` (see `C12_compatible` for that step):
+/-- **`make_splines_identical(a, b)` with `direction=None` on two clamped SURFACES of any orders and
+knots in ALL 2 directions — the composed statement, hypotheses on the input objects only.**  `o1`, `o2`
+are well-formed surfaces (rational or not, any dimensions); in every direction `i` both bases are
+`ClampedCont` and the knots of the two normalised knot vectors are pairwise equal or more than
+`2·(max p₁ p₂ - 1)·tol` apart (`p_j` the orders in that direction).  Then the whole call —
+`make_splines_compatible`, then the loop over the directions 0 and 1, each of which repeats
+`make_splines_compatible` (the identity by then), `check_direction`, `reparam`, `lower_periodic` (nothing
+to do), `raise_order`, the two insertion passes — SUCCEEDS, and with
+`c = make_splines_compatible(o1, o2)` (see `C12_compatible` for that step):
 * both results are well formed, have the rationality and the number of components of `c.1`, `c.2`
   (equal dimension and rationality);
-* in EVERY direction both have the same basis: order `max (p₁ i) (p₂ i)`, non-periodic, the union knot
-  vector on `[x0 i, xl i]` (`= [0,1]`);
-* each result evaluated at `u_d ↦ (u_d - start_d)/(end_d - start_d)` in BOTH directions is exactly the
-  map of `c.j` (every homogeneous component, every side, every parameter).
-One side condition remains, and only if the order of `o_j` is raised in direction 0: `GrevilleOK` of
-its (not yet normalised) basis of direction 1 — `raise_order` in direction 0 re-interpolates direction 1
-as well; in the second round the untouched direction 0 carries the union basis, for which `GrevilleOK`
-and `raiseGuard` are proved here.  `_partial`: the guards of this section; volumes are the same
-argument with three rounds and are not written out. -/
-theorem C12_open_surfaces_all_directions_partial (tol : K) (htol : 0 < tol) (p1 p2 : Fin 2 → ℕ)
-    (hp1 : ∀ i, 2 ≤ p1 i) (hp2 : ∀ i, 2 ≤ p2 i) (x0 xl : Fin 2 → K) (L : Fin 2 → List (K × ℕ × ℕ))
-    (hm : ∀ i, ∀ e ∈ L i, e.2.1 ≤ p1 i - 1 ∧ e.2.2 ≤ p2 i - 1)
-    (hgap : ∀ i, Separated (2 * ((max (p1 i) (p2 i) - 1 : ℕ) : K) * tol)
-      (clampedU (x0 i) (xl i) ((L i).map (·.1))))
-    (o1 o2 : Obj K) (h1 : o1.WF) (h2 : o2.WF) (hw1 : C06.WF o1 2) (hw2 : C06.WF o2 2)
-    (hb1 : ∀ i : Fin 2, C06.reparamOk (o1.basis i) 0 1
-      = openBasis (p1 i) (clampedU (x0 i) (xl i) ((L i).map (·.1))) (clampedM (p1 i) ((L i).map (·.2.1))))
-    (hb2 : ∀ i : Fin 2, C06.reparamOk (o2.basis i) 0 1
-      = openBasis (p2 i) (clampedU (x0 i) (xl i) ((L i).map (·.1))) (clampedM (p2 i) ((L i).map (·.2.2))))
-    (hG1 : p1 0 < max (p1 0) (p2 0) → GrevilleOK tol (o1.basis 1))
-    (hG2 : p2 0 < max (p1 0) (p2 0) → GrevilleOK tol (o2.basis 1)) :
+* in EVERY direction both have the same basis: the `unionBasis` (order `max p₁ p₂`, non-periodic, on
+  `[0,1]`) over the computed `commonEntries` of the two input bases of that direction;
+* each result evaluated at `u_d ↦ (u_d - start_d)/(end_d - start_d)` in ALL directions at once is exactly
+  the map of `c.j` (every homogeneous component, every side, every parameter).
+One side condition remains, and only if the order of `o_j` is raised in direction 0 (it is the smaller
+one): `GrevilleOK` of its (not yet normalised) basis of direction 1 — `raise_order` in direction 0
+re-interpolates direction 1 as well (for a `ClampedCont` basis: `C12.grevilleOK_of_clampedCont`); in the
+second round the untouched direction 0 carries the union basis, for which `GrevilleOK` and `raiseGuard`
+are proved here.  `_partial`: the guards of this section. -/
+theorem C12_open_surfaces_all_directions_partial (tol : K) (htol : 0 < tol) (o1 o2 : Obj K) (h1 : o1.WF) (h2 : o2.WF)
+    (hw1 : C06.WF o1 2) (hw2 : C06.WF o2 2)
+    (hc1 : ∀ i : Fin 2, ClampedCont (o1.basis i)) (hc2 : ∀ i : Fin 2, ClampedCont (o2.basis i))
+    (hsep : ∀ i : Fin 2, PairSeparated (2 * ((max (o1.basis i).order (o2.basis i).order - 1 : ℕ) : K) * tol)
+      (C06.reparamOk (o1.basis i) 0 1).knots.toList (C06.reparamOk (o2.basis i) 0 1).knots.toList)
+    (hG1 : (o1.basis 0).order < (o2.basis 0).order → GrevilleOK tol (o1.basis 1))
+    (hG2 : (o2.basis 0).order < (o1.basis 0).order → GrevilleOK tol (o2.basis 1)) :
     ∃ r, makeIdentical tol false false o1 o2 none = .ok r
       ∧ C06.WF r.1 2 ∧ C06.WF r.2 2
       ∧ (∀ i : Fin 2,
-          r.1.basis i = openBasis (max (p1 i) (p2 i)) (clampedU (x0 i) (xl i) ((L i).map (·.1)))
-            (clampedM (max (p1 i) (p2 i)) ((L i).map (fun e =>
-              max (raisedMult (max (p1 i) (p2 i) - p1 i) e.2.1) (raisedMult (max (p1 i) (p2 i) - p2 i) e.2.2))))
+          r.1.basis i = unionBasis (o1.basis i).order (o2.basis i).order
+            (commonEntries (o1.basis i) (o2.basis i))
           ∧ r.2.basis i = r.1.basis i)
       ∧ (r.1.rational = (makeCompatible o1 o2).1.rational ∧ r.2.rational = (makeCompatible o1 o2).2.rational
           ∧ r.1.ncomp = (makeCompatible o1 o2).1.ncomp ∧ r.2.ncomp = (makeCompatible o1 o2).2.ncomp)
@@ -529,129 +556,66 @@ theorem C12_open_surfaces_all_directions_partial (tol : K) (htol : 0 < tol) (p1 
           (C06.toTP r.2 2 comp).eval s
               (fun d => (u d - (o2.basis d).start) / ((o2.basis d).stop - (o2.basis d).start))
             = (C06.toTP (makeCompatible o1 o2).2 2 comp).eval s u) := by
-  set c := makeCompatible o1 o2 with hcdef
-  obtain ⟨hwc1, hwc2⟩ := makeCompatible_wf06 hw1 hw2
-  obtain ⟨hcb1, hcb2⟩ := makeCompatible_bases o1 o2
-  obtain ⟨_, _, hd1, hd2, hrr1, hrr2⟩ := makeCompatible_spec h1 h2
-  have hbas1 : ∀ k, c.1.basis k = o1.basis k := fun k => by unfold Obj.basis; rw [hcb1]
-  have hbas2 : ∀ k, c.2.basis k = o2.basis k := fun k => by unfold Obj.basis; rw [hcb2]
-  have hnb1 : ∀ i : Fin 2, C06.reparamOk (c.1.basis i) 0 1
-      = openBasis (p1 i) (clampedU (x0 i) (xl i) ((L i).map (·.1))) (clampedM (p1 i) ((L i).map (·.2.1))) :=
-    fun i => by rw [hbas1]; exact hb1 i
-  have hnb2 : ∀ i : Fin 2, C06.reparamOk (c.2.basis i) 0 1
-      = openBasis (p2 i) (clampedU (x0 i) (xl i) ((L i).map (·.1))) (clampedM (p2 i) ((L i).map (·.2.2))) :=
-    fun i => by rw [hbas2]; exact hb2 i
-  have hcr : c.1.rational = c.2.rational := hrr1.trans hrr2.symm
-  have hcd : c.1.dimension = c.2.dimension := hd1.trans hd2.symm
-  have hfac : ∀ i : Fin 2, tol ≤ 2 * ((max (p1 i) (p2 i) - 1 : ℕ) : K) * tol := by
-    intro i
-    have h1 : (1 : K) ≤ ((max (p1 i) (p2 i) - 1 : ℕ) : K) := by
-      have : 1 ≤ max (p1 i) (p2 i) - 1 := by have := le_max_left (p1 i) (p2 i); have := hp1 i; omega
-      exact_mod_cast this
-    nlinarith
-  have hsep : ∀ i : Fin 2, Separated tol (clampedU (x0 i) (xl i) ((L i).map (·.1))) :=
-    fun i => separated_mono (hfac i) (hgap i)
-  have hsize : ∀ o : Obj K, C06.WF o 2 → o.bases.size = o.pardim := by
-    intro o hw
-    unfold Obj.pardim
-    rw [hw.size, hw.shape, C06.midx_length]
-  have hne01 : ∀ k : Fin 2, k ≠ 0 → k = 1 := by intro k hk; fin_cases k <;> simp_all
-  have hne10 : ∀ k : Fin 2, k ≠ 1 → k = 0 := by intro k hk; fin_cases k <;> simp_all
-  -- the guard for an object whose re-parametrised FIRST basis is clamped in common-entry form
-  have hguard_of : ∀ (o : Obj K) (i : Fin 2), C06.WF o 2 → ∀ (p : ℕ) (f : K × ℕ × ℕ → ℕ), 1 ≤ p →
-      (C06.reparamObj o i 0 1).basis 0
-        = openBasis p (clampedU (x0 0) (xl 0) ((L 0).map (·.1))) (clampedM p ((L 0).map f)) →
-      Obj.raiseGuard tol (C06.reparamObj o i 0 1).bases.toList = .ok true := by
-    intro o i hw p f hp hb
-    have hw' := (C06.wf_reparamObj hw i (zero_lt_one : (0 : K) < 1)).1
-    rw [bases_toList_two hw', hb]
-    exact raiseGuard_common tol htol p hp _ _ _ _ _ (hsep 0) _
-  -- ROUND 0
-  obtain ⟨r0, hrun0, hr0b, hr0e, hr0o, hres01, hres02, hwr01, hwr02⟩ :=
-    C12_open_surfaces_partial tol htol (p1 0) (p2 0) (hp1 0) (hp2 0) (x0 0) (xl 0) (L 0) (hm 0) (hgap 0) 0 c
-      hwc1 hwc2 (hnb1 0) (hnb2 0)
-      (fun h k hk => by rw [hne01 k hk, hbas1]; exact hG1 h)
-      (fun h k hk => by rw [hne01 k hk, hbas2]; exact hG2 h)
-      (fun _ => hguard_of c.1 0 hwc1 (p1 0) (·.2.1) (by have := hp1 0; omega)
-        ((reparamObj_basis hwc1 (0 : Fin 2)).trans (hnb1 0)))
-      (fun _ => hguard_of c.2 0 hwc2 (p2 0) (·.2.2) (by have := hp2 0; omega)
-        ((reparamObj_basis hwc2 (0 : Fin 2)).trans (hnb2 0)))
-  obtain ⟨ob01, ob02⟩ := identicalDir_other (s := c) (fun h => by cases h) (fun _ => hsize _ hwc1)
-    (fun h => by cases h) (fun _ => hsize _ hwc2) hrun0
-  have hr0r : r0.1.rational = r0.2.rational := by rw [ob01.rational, ob02.rational]; exact hcr
-  have hr0d : r0.1.dimension = r0.2.dimension := by
-    rw [dimension_eq_of hres01.ncomp ob01.rational, dimension_eq_of hres02.ncomp ob02.rational]; exact hcd
-  -- ROUND 1
-  have hB0le : ∀ e ∈ L 0, max (raisedMult (max (p1 0) (p2 0) - p1 0) e.2.1)
-      (raisedMult (max (p1 0) (p2 0) - p2 0) e.2.2) ≤ max (p1 0) (p2 0) - 1 := by
-    intro e he
-    have := hm 0 e he
-    have h1 := le_max_left (p1 0) (p2 0)
-    have h2 := le_max_right (p1 0) (p2 0)
-    have := hp1 0
-    have := hp2 0
-    unfold raisedMult
-    refine max_le ?_ ?_ <;> split_ifs <;> omega
-  have hp0 : 2 ≤ max (p1 0) (p2 0) := le_trans (hp1 0) (le_max_left _ _)
-  have hG0 : GrevilleOK tol (r0.1.basis ((0 : Fin 2) : ℕ)) := by
-    rw [hr0b]
-    exact grevilleOK_common tol htol _ hp0 _ _ _ _ _ hB0le (hgap 0)
-  have hr01 : ∀ j : Fin 2, j ≠ 0 → r0.1.basis j = c.1.basis j ∧ r0.2.basis j = c.2.basis j := hr0o
-  obtain ⟨r1, hrun1, hr1b, hr1e, hr1o, hres11, hres12, hwr11, hwr12⟩ :=
-    C12_open_surfaces_partial tol htol (p1 1) (p2 1) (hp1 1) (hp2 1) (x0 1) (xl 1) (L 1) (hm 1) (hgap 1) 1 r0
-      hwr01 hwr02
-      ((congrArg (fun b => C06.reparamOk b 0 1) (hr01 1 (by decide)).1).trans (hnb1 1))
-      ((congrArg (fun b => C06.reparamOk b 0 1) (hr01 1 (by decide)).2).trans (hnb2 1))
-      (fun _ k hk => by rw [hne10 k hk]; exact hG0)
-      (fun _ k hk => by rw [hne10 k hk]; exact hr0e ▸ hG0)
-      (fun _ => hguard_of r0.1 1 hwr01 (max (p1 0) (p2 0)) _ (by omega)
-        ((reparamObj_basis_ne r0.1 1 0 (by decide)).trans hr0b))
-      (fun _ => hguard_of r0.2 1 hwr02 (max (p1 0) (p2 0)) _ (by omega)
-        ((reparamObj_basis_ne r0.2 1 0 (by decide)).trans (hr0e.trans hr0b)))
-  obtain ⟨ob11, ob12⟩ := identicalDir_other (s := r0) (fun h => by cases h) (fun _ => hsize _ hwr01)
-    (fun h => by cases h) (fun _ => hsize _ hwr02) hrun1
-  -- the loop
-  have hloop : makeIdentical tol false false o1 o2 none = .ok r1 := by
-    show identicalLoop tol false false (List.range c.1.pardimB) c = .ok r1
-    have hpb : c.1.pardimB = 2 := by unfold Obj.pardimB; exact hwc1.size
-    rw [hpb]
-    show identicalLoop tol false false [0, 1] c = .ok r1
-    unfold identicalLoop
-    have e0 := makeIdenticalDir_eq tol false false hwc1 hcr hcd (0 : Fin 2) (by decide)
-    have e0' : makeIdenticalDir tol false false c (.int ((0 : ℕ) : Int)) = .ok r0 := e0.trans hrun0
-    simp only [e0']
-    unfold identicalLoop
-    have e1 := makeIdenticalDir_eq tol false false hwr01 hr0r hr0d (1 : Fin 2) (by decide)
-    have e1' : makeIdenticalDir tol false false r0 (.int ((1 : ℕ) : Int)) = .ok r1 := e1.trans hrun1
-    simp only [e1']
-    rfl
-  refine ⟨r1, hloop, hwr11, hwr12, ?_, ⟨?_, ?_, ?_, ?_⟩, ?_, ?_⟩
-  · intro i
-    fin_cases i
-    · exact ⟨((hr1o 0 (by decide)).1).trans hr0b, ((hr1o 0 (by decide)).2).trans (hr0e.trans ((hr1o 0 (by decide)).1).symm)⟩
-    · exact ⟨hr1b, hr1e⟩
-  · rw [ob11.rational, ob01.rational]
-  · rw [ob12.rational, ob02.rational]
-  · rw [hres11.ncomp, hres01.ncomp]
-  · rw [hres12.ncomp, hres02.ncomp]
-  · intro comp hc s u
-    refine Eq.trans ?_ (hres01.eval comp hc s u)
-    refine Eq.trans ?_ (hres11.eval comp (by rw [hres01.ncomp]; exact hc) s _)
-    congr 1
-    funext d
-    have e1 : r0.1.basis 1 = o1.basis 1 := ((hr01 1 (by decide)).1).trans (hbas1 1)
-    fin_cases d
-    · simp [Function.update, hbas1]
-    · simp [Function.update, e1]
-  · intro comp hc s u
-    refine Eq.trans ?_ (hres02.eval comp hc s u)
-    refine Eq.trans ?_ (hres12.eval comp (by rw [hres02.ncomp]; exact hc) s _)
-    congr 1
-    funext d
-    have e1 : r0.2.basis 1 = o2.basis 1 := ((hr01 1 (by decide)).2).trans (hbas2 1)
-    fin_cases d
-    · simp [Function.update, hbas2]
-    · simp [Function.update, e1]
+  have hL := fun i : Fin 2 =>
+    commonForm_entries _ (by positivity) _ _ (hw1.valid i) (hw2.valid i) (hc1 i) (hc2 i) (hsep i)
+  exact open_surfaces_all_entries tol htol (fun i => (o1.basis i).order) (fun i => (o2.basis i).order)
+    (fun i => (hc1 i).order_ge) (fun i => (hc2 i).order_ge) (fun _ => 0) (fun _ => 1)
+    (fun i => commonEntries (o1.basis i) (o2.basis i)) (fun i => (hL i).2.2.2) (fun i => (hL i).2.2.1)
+    o1 o2 h1 h2 hw1 hw2 (fun i => (hL i).1) (fun i => (hL i).2.1)
+    (fun h => hG1 ((lt_max_iff.mp h).resolve_left (lt_irrefl _)))
+    (fun h => hG2 ((lt_max_iff.mp h).resolve_right (lt_irrefl _)))
+
+/-- **`make_splines_identical(a, b)` with `direction=None` on two clamped VOLUMES of any orders and
+knots in ALL 3 directions — the composed statement, hypotheses on the input objects only.**  `o1`, `o2`
+are well-formed volumes (rational or not, any dimensions); in every direction `i` both bases are
+`ClampedCont` and the knots of the two normalised knot vectors are pairwise equal or more than
+`2·(max p₁ p₂ - 1)·tol` apart (`p_j` the orders in that direction).  Then the whole call —
+`make_splines_compatible`, then the loop over the directions 0, 1 and 2, each of which repeats
+`make_splines_compatible` (the identity by then), `check_direction`, `reparam`, `lower_periodic` (nothing
+to do), `raise_order`, the two insertion passes — SUCCEEDS, and with
+`c = make_splines_compatible(o1, o2)` (see `C12_compatible` for that step):
+* both results are well formed, have the rationality and the number of components of `c.1`, `c.2`
+  (equal dimension and rationality);
+* in EVERY direction both have the same basis: the `unionBasis` (order `max p₁ p₂`, non-periodic, on
+  `[0,1]`) over the computed `commonEntries` of the two input bases of that direction;
+* each result evaluated at `u_d ↦ (u_d - start_d)/(end_d - start_d)` in ALL directions at once is exactly
+  the map of `c.j` (every homogeneous component, every side, every parameter).
+Three rounds (`C12.open_volumes_all_entries`).  One side condition remains, and only if the order of
+`o_j` is raised in a direction `i` (it is the smaller one there): `GrevilleOK` of its (not yet normalised)
+bases of the LATER directions `k > i` — `raise_order` in direction `i` re-interpolates every direction (for
+a `ClampedCont` basis: `C12.grevilleOK_of_clampedCont`); the EARLIER directions carry the union bases by
+then, for which `GrevilleOK` and `raiseGuard` are proved here.  `_partial`: the guards of this section. -/
+theorem C12_open_volumes_all_directions_partial (tol : K) (htol : 0 < tol) (o1 o2 : Obj K) (h1 : o1.WF) (h2 : o2.WF)
+    (hw1 : C06.WF o1 3) (hw2 : C06.WF o2 3)
+    (hc1 : ∀ i : Fin 3, ClampedCont (o1.basis i)) (hc2 : ∀ i : Fin 3, ClampedCont (o2.basis i))
+    (hsep : ∀ i : Fin 3, PairSeparated (2 * ((max (o1.basis i).order (o2.basis i).order - 1 : ℕ) : K) * tol)
+      (C06.reparamOk (o1.basis i) 0 1).knots.toList (C06.reparamOk (o2.basis i) 0 1).knots.toList)
+    (hG1 : ∀ i k : Fin 3, i < k → (o1.basis i).order < (o2.basis i).order → GrevilleOK tol (o1.basis k))
+    (hG2 : ∀ i k : Fin 3, i < k → (o2.basis i).order < (o1.basis i).order → GrevilleOK tol (o2.basis k)) :
+    ∃ r, makeIdentical tol false false o1 o2 none = .ok r
+      ∧ C06.WF r.1 3 ∧ C06.WF r.2 3
+      ∧ (∀ i : Fin 3,
+          r.1.basis i = unionBasis (o1.basis i).order (o2.basis i).order
+            (commonEntries (o1.basis i) (o2.basis i))
+          ∧ r.2.basis i = r.1.basis i)
+      ∧ (r.1.rational = (makeCompatible o1 o2).1.rational ∧ r.2.rational = (makeCompatible o1 o2).2.rational
+          ∧ r.1.ncomp = (makeCompatible o1 o2).1.ncomp ∧ r.2.ncomp = (makeCompatible o1 o2).2.ncomp)
+      ∧ (∀ comp, comp < (makeCompatible o1 o2).1.ncomp → ∀ (s : Fin 3 → Side) (u : Fin 3 → K),
+          (C06.toTP r.1 3 comp).eval s
+              (fun d => (u d - (o1.basis d).start) / ((o1.basis d).stop - (o1.basis d).start))
+            = (C06.toTP (makeCompatible o1 o2).1 3 comp).eval s u)
+      ∧ (∀ comp, comp < (makeCompatible o1 o2).2.ncomp → ∀ (s : Fin 3 → Side) (u : Fin 3 → K),
+          (C06.toTP r.2 3 comp).eval s
+              (fun d => (u d - (o2.basis d).start) / ((o2.basis d).stop - (o2.basis d).start))
+            = (C06.toTP (makeCompatible o1 o2).2 3 comp).eval s u) := by
+  have hL := fun i : Fin 3 =>
+    commonForm_entries _ (by positivity) _ _ (hw1.valid i) (hw2.valid i) (hc1 i) (hc2 i) (hsep i)
+  exact open_volumes_all_entries tol htol (fun i => (o1.basis i).order) (fun i => (o2.basis i).order)
+    (fun i => (hc1 i).order_ge) (fun i => (hc2 i).order_ge) (fun _ => 0) (fun _ => 1)
+    (fun i => commonEntries (o1.basis i) (o2.basis i)) (fun i => (hL i).2.2.2) (fun i => (hL i).2.2.1)
+    o1 o2 h1 h2 hw1 hw2 (fun i => (hL i).1) (fun i => (hL i).2.1)
+    (fun i k hik h => hG1 i k hik ((lt_max_iff.mp h).resolve_left (lt_irrefl _)))
+    (fun i k hik h => hG2 i k hik ((lt_max_iff.mp h).resolve_right (lt_irrefl _)))
 
 /-! ## A periodic direction against an open partner -/
 
@@ -675,8 +639,8 @@ Proved without hypotheses: `reparam` (C06), `lower_periodic` (C08 lifted by
 lower order (`H_raise₁/₂`; theorems for curves / surfaces / volumes: `C12.raisesTo_curve`,
 `raisesTo_surface`, `raisesTo_volume` — `C12_periodic_curves_partial` below has none left); (ii) only
 the case "lowered to non-periodic": two periodic partners of different continuity end periodic, and the
-insertion passes are then periodic insertions (`C04_periodic_partial`, not lifted); (iii) the guard
-`n ≥ p + k` and `hseam`. -/
+insertion passes are then periodic insertions — see `C12_periodic_pair_partial` (equal orders; success and
+geometry, not the equality of the knot vectors); (iii) the guard `n ≥ p + k` and `hseam`. -/
 theorem C12_periodic_direction_partial {m : ℕ} (tol : K) (htol : 0 < tol) (c1 c2 : Bool) (p1 p2 : ℕ)
     (hp1 : 2 ≤ p1) (hp2 : 2 ≤ p2) (x0 xl : K) (L : List (K × ℕ × ℕ))
     (hsep : Separated tol (clampedU x0 xl (L.map (·.1)))) (i : Fin m) (hi : (i : ℕ) ≤ 2)
@@ -781,6 +745,41 @@ theorem C12_periodic_curves_partial (tol : K) (htol : 0 < tol) (c1 c2 : Bool) (p
       exact raisesTo_curve tol htol p2 (max p1 p2) hp2 (le_max_right _ _) x0 xl L (·.1) (·.2.2)
         (fun e he => (hm e he).2) hgap o2' hwo2 (hb2 o2' hl') c2)
   exact ⟨r, h1, h2, h3, h5, h6⟩
+
+/-- **Two PERIODIC partners of different continuity, equal orders — no hypothesis on any called method.**
+Any pardim `m`, direction `i`; in direction `i` object `j` is periodic with continuity `k_j ≥ 0`,
+`k₁ ≠ k₂`, both of the same order; both satisfy the guard of periodic knot insertion and of
+`lower_periodic`, `n_j ≥ p + k_j`; the object of HIGHER continuity (the one that is lowered) has the
+declared seam multiplicity (`start < t[p]`); the other directions are arbitrary.  Then
+`make_splines_identical(direction=i)` SUCCEEDS — `reparam` (C06), `lower_periodic` of the smoother object
+down to `min k₁ k₂` (C08), `raise_order(0)` (nothing), the two passes of PERIODIC `insert_knot` with
+whatever values the `continuity` comparisons produce (C04, periodic branch; `continuity` never raises on a
+periodic basis) — and
+* each object is the exact rescaling of its input for all parameters of its domain `[start_i, end_i]`
+  (`RescaledOn`: every homogeneous component, every side; a periodic object evaluated outside is wrapped
+  into the domain first, property C08);
+* both end periodic with continuity `min k₁ k₂` and the common order, are well formed, and the bases of
+  the other directions are unchanged.
+`_partial`: equal orders only (`raise_order` of a periodic basis is not covered by C05); the guards
+`n_j ≥ p + k_j` and the seam condition; and the statement does NOT say that the two resulting knot
+vectors are equal (the periodic analogue of `C12_knot_merge_partial` is not proved; the correspondence
+run and the oracle check it on every generated pair). -/
+theorem C12_periodic_pair_partial {m : ℕ} (tol : K) (c1 c2 : Bool) (i : Fin m) (hi : (i : ℕ) ≤ 2)
+    (s : Obj K × Obj K) (hw1 : C06.WF s.1 m) (hw2 : C06.WF s.2 m) (k1 k2 : ℕ)
+    (hk1 : (s.1.basis i).periodic = (k1 : Int)) (hk2 : (s.2.basis i).periodic = (k2 : Int)) (hne : k1 ≠ k2)
+    (hord : (s.1.basis i).order = (s.2.basis i).order)
+    (hg1 : (s.1.basis i).order + k1 ≤ (s.1.basis i).numFunctions)
+    (hg2 : (s.2.basis i).order + k2 ≤ (s.2.basis i).numFunctions)
+    (hseam1 : k2 < k1 → (s.1.basis i).start < (s.1.basis i).kn (s.1.basis i).order)
+    (hseam2 : k1 < k2 → (s.2.basis i).start < (s.2.basis i).kn (s.2.basis i).order) :
+    ∃ r, identicalDir tol c1 c2 s i = .ok r
+      ∧ RescaledOn m i (s.1.basis i).start (s.1.basis i).stop s.1 r.1
+      ∧ RescaledOn m i (s.2.basis i).start (s.2.basis i).stop s.2 r.2
+      ∧ C06.WF r.1 m ∧ C06.WF r.2 m
+      ∧ (r.1.basis i).periodic = ((min k1 k2 : ℕ) : Int) ∧ (r.2.basis i).periodic = ((min k1 k2 : ℕ) : Int)
+      ∧ (r.1.basis i).order = (s.1.basis i).order ∧ (r.2.basis i).order = (s.1.basis i).order
+      ∧ (∀ j : Fin m, j ≠ i → r.1.basis j = s.1.basis j ∧ r.2.basis j = s.2.basis j) :=
+  core_periodic_pair tol c1 c2 i hi s hw1 hw2 k1 k2 hk1 hk2 hne hord hg1 hg2 hseam1 hseam2
 
 /-! ## Directions -/
 
@@ -940,26 +939,27 @@ example : ∃ r, identicalDir exTol true true (exQ, exL) 0 = .ok r
   rw [h2]
   decide +kernel
 
-/-- `C12_open_curves_partial` on the harness's worked example with DIFFERENT orders: the quadratic `exQ`
-    on `[0,3]` (knots `1`, `2,2`) and the rational linear curve `exL2` on `[1,3]` (knot `2`).  The call
-    succeeds, both get order 3 and the knot vector `0,0,0,1/3,1/2,1/2,2/3,2/3,1,1,1` (what the real code
-    returns, `harness/props/C12.py`), and both are exact rescalings of their inputs. -/
+/-- `C12_common_entries` / `commonEntries` on the harness's worked example: the quadratic `exQ` on `[0,3]`
+    (knots `1`, `2,2`) and the linear curve `exL2` on `[1,3]` (knot `2`) have the common entries
+    `1/3` (1, absent), `1/2` (absent, 1), `2/3` (2, absent); all hypotheses are decided by the kernel. -/
+example : ClampedCont (exQ.basis 0) ∧ ClampedCont (exL2.basis 0)
+    ∧ PairSeparated (2 * ((max (exQ.basis 0).order (exL2.basis 0).order - 1 : ℕ) : ℚ) * exTol)
+        (C06.reparamOk (exQ.basis 0) 0 1).knots.toList (C06.reparamOk (exL2.basis 0) 0 1).knots.toList
+    ∧ commonEntries (exQ.basis 0) (exL2.basis 0) = [(1/3, 1, 0), (1/2, 0, 1), (2/3, 2, 0)] := by
+  refine ⟨?_, ?_, ?_, ?_⟩ <;> decide +kernel
+
+/-- `C12_open_curves_partial` on that example (DIFFERENT orders 3 and 2).  The call succeeds, both get
+    order 3 and the knot vector `0,0,0,1/3,1/2,1/2,2/3,2/3,1,1,1` (what the real code returns,
+    `harness/props/C12.py`), and both are exact rescalings of their inputs. -/
 example : ∃ r, identicalDir exTol true true (exQ, exL2) 0 = .ok r
     ∧ (r.1.basis 0).order = 3 ∧ (r.1.basis 0).knots = #[0, 0, 0, 1/3, 1/2, 1/2, 2/3, 2/3, 1, 1, 1]
     ∧ r.2.basis 0 = r.1.basis 0
     ∧ Rescaled 1 0 (exQ.basis 0).start (exQ.basis 0).stop exQ r.1
     ∧ Rescaled 1 0 (exL2.basis 0).start (exL2.basis 0).stop exL2 r.2 := by
-  obtain ⟨hb1, _, hb2⟩ := exQL_norm
-  have hgap : Separated (2 * ((max 3 2 - 1 : ℕ) : ℚ) * exTol)
-      (clampedU (0 : ℚ) 1 ([((1 : ℚ)/3, 1, 0), (1/2, 0, 1), (2/3, 2, 0)].map (·.1))) := by
-    simp [Separated, clampedU, exTol]; norm_num
-  obtain ⟨r, h1, h2, h3, h4, h5⟩ := C12_open_curves_partial exTol (by norm_num [exTol]) true true 3 2 (by norm_num)
-    (by norm_num) 0 1 [((1 : ℚ)/3, 1, 0), (1/2, 0, 1), (2/3, 2, 0)]
-    (by intro e he; simp only [List.mem_cons, List.not_mem_nil, or_false] at he
-        rcases he with rfl | rfl | rfl <;> decide)
-    hgap (exQ, exL2) exQ_wf exL2_wf hb1 hb2
+  obtain ⟨r, h1, h2, h3, h4, h5⟩ := C12_open_curves_partial exTol (by norm_num [exTol]) true true (exQ, exL2)
+    exQ_wf exL2_wf (by decide +kernel) (by decide +kernel) (by decide +kernel)
   refine ⟨r, h1, ?_, ?_, h3, h4, h5⟩
-  · rw [h2]; rfl
+  · rw [h2]; decide +kernel
   · rw [h2]; decide +kernel
 
 /-- `C12_open_direction_partial` on two SURFACES, direction `u` (equal orders there, so no `RaisesTo`
@@ -985,28 +985,24 @@ example : ∃ r, identicalDir exTol false false (exSA, exSB) 0 = .ok r
   rw [h2']; decide +kernel
 
 /-- `C12_open_surfaces_partial` on the same two surfaces in direction `v`, where the orders DIFFER (2
-    against 3): surface A is elevated (its untouched `u` basis `0,0,1,2,2` is `GrevilleOK`, the guard holds
-    since `u` is clamped), both end with order 3 on `0,0,0,1,1,1`, the `u` bases are untouched, both are
-    exact rescalings. -/
+    against 3): surface A is elevated (its untouched `u` basis `0,0,1,2,2` is `GrevilleOK` by
+    `grevilleOK_of_clampedCont`, the guard holds since `u` is clamped), both end with order 3 on
+    `0,0,0,1,1,1`, the `u` bases are untouched, both are exact rescalings. -/
 example : ∃ r, identicalDir exTol false false (exSA, exSB) 1 = .ok r
     ∧ (r.1.basis 1).order = 3 ∧ (r.1.basis 1).knots = #[0, 0, 0, 1, 1, 1] ∧ r.2.basis 1 = r.1.basis 1
     ∧ r.1.basis 0 = exSu0 ∧ r.2.basis 0 = exSv0
     ∧ Rescaled 2 1 (exSA.basis 1).start (exSA.basis 1).stop exSA r.1
     ∧ Rescaled 2 1 (exSB.basis 1).start (exSB.basis 1).stop exSB r.2 := by
-  obtain ⟨_, _, hb1, hb2, hu, hl⟩ := exS_norm
+  obtain ⟨_, _, _, _, _, hl⟩ := exS_norm
   have htol : (0 : ℚ) < exTol := by norm_num [exTol]
-  have hgap : Separated (2 * ((max 2 3 - 1 : ℕ) : ℚ) * exTol) (clampedU (0 : ℚ) 1 (([] : List (ℚ × ℕ × ℕ)).map (·.1))) := by
-    simp [Separated, clampedU, exTol]; norm_num
-  have hG : GrevilleOK exTol (exSA.basis 0) := by
-    rw [hu]
-    exact grevilleOK_clamped exTol htol 1 (by norm_num) 0 2 [1] [1] rfl (by simp)
-      (by simp [Separated, clampedU, exTol]; norm_num)
+  have hG : GrevilleOK exTol (exSA.basis 0) :=
+    grevilleOK_of_clampedCont exTol htol _ (exSA_wf.valid (0 : Fin 2)) (by decide +kernel) (by decide +kernel)
   have hguard : Obj.raiseGuard exTol (C06.reparamObj exSA 1 0 1).bases.toList = .ok true := by
     rw [hl]
     exact raiseGuard_clamped exTol htol 2 (by norm_num) 0 2 [1] [1] rfl
       (by simp [Separated, clampedU, exTol]; norm_num) (by simp) _
-  obtain ⟨r, h1, h2, h3, h4, h5, h6, _, _⟩ := C12_open_surfaces_partial exTol htol 2 3 (by norm_num) (by norm_num)
-    0 1 [] (by simp) hgap 1 (exSA, exSB) exSA_wf exSB_wf hb1 hb2
+  obtain ⟨r, h1, h2, h3, h4, h5, h6, _, _⟩ := C12_open_surfaces_partial exTol htol 1 (exSA, exSB) exSA_wf exSB_wf
+    (by decide +kernel) (by decide +kernel) (by decide +kernel)
     (fun _ k hk => by
       have : k = 0 := by
         rcases k with ⟨_ | _ | n, hn⟩
@@ -1015,39 +1011,67 @@ example : ∃ r, identicalDir exTol false false (exSA, exSB) 1 = .ok r
         · omega
       subst this; exact hG)
     (fun h => absurd h (by decide)) (fun _ => hguard) (fun h => absurd h (by decide))
-  have h2' : r.1.basis 1 = openBasis (max 2 3) (clampedU (0 : ℚ) 1 (([] : List (ℚ × ℕ × ℕ)).map (·.1)))
-      (clampedM (max 2 3) (([] : List (ℚ × ℕ × ℕ)).map (fun e =>
-        max (raisedMult (max 2 3 - 2) e.2.1) (raisedMult (max 2 3 - 3) e.2.2)))) := h2
+  have h2' : r.1.basis 1 = unionBasis (exSA.basis 1).order (exSB.basis 1).order
+      (commonEntries (exSA.basis 1) (exSB.basis 1)) := h2
   refine ⟨r, h1, ?_, ?_, h3, (h4 0 (by decide)).1, (h4 0 (by decide)).2, h5, h6⟩
-  · rw [h2']; rfl
+  · rw [h2']; decide +kernel
   · rw [h2']; decide +kernel
 
-/-- `C12_open_surfaces_all_directions_partial` on the two example surfaces: `make_splines_identical`
-    with `direction=None` succeeds, both results are well formed and carry the same basis in BOTH
-    directions (`u`: `0,0,1/2,1,1`; `v`: order 3 on `0,0,0,1,1,1`), and each is the exact rescaling of its
-    (compatible) input in both directions at once.  In direction `u` the orders agree, so the `GrevilleOK`
-    side condition is not needed. -/
+/-- `C12_open_surfaces_all_directions_partial` on the two example surfaces: every hypothesis is decided by
+    the kernel (in direction `u` the orders agree, so the `GrevilleOK` side condition is not needed);
+    `make_splines_identical` with `direction=None` succeeds, both results are well formed and carry the same
+    basis in BOTH directions (`u`: `0,0,1/2,1,1`; `v`: order 3 on `0,0,0,1,1,1`), and each is the exact
+    rescaling of its (compatible) input in both directions at once. -/
 example : ∃ r, makeIdentical exTol false false exSA exSB none = .ok r
     ∧ C06.WF r.1 2 ∧ C06.WF r.2 2 ∧ r.2.basis 0 = r.1.basis 0 ∧ r.2.basis 1 = r.1.basis 1
+    ∧ (r.1.basis 0).knots = #[0, 0, 1/2, 1, 1] ∧ (r.1.basis 1).knots = #[0, 0, 0, 1, 1, 1]
     ∧ (∀ comp, comp < (makeCompatible exSA exSB).1.ncomp → ∀ (s : Fin 2 → Side) (u : Fin 2 → ℚ),
         (C06.toTP r.1 2 comp).eval s
             (fun d => (u d - (exSA.basis d).start) / ((exSA.basis d).stop - (exSA.basis d).start))
           = (C06.toTP (makeCompatible exSA exSB).1 2 comp).eval s u) := by
-  obtain ⟨a0, b0, a1, b1, _, _⟩ := exS_norm
   obtain ⟨r, h1, h2, h3, h4, _, h6, _⟩ := C12_open_surfaces_all_directions_partial exTol (by norm_num [exTol])
-    ![2, 2] ![2, 3] (by intro i; fin_cases i <;> simp) (by intro i; fin_cases i <;> simp) ![0, 0] ![1, 1]
-    ![[((1 : ℚ)/2, 1, 0)], []]
-    (by intro i e he; fin_cases i <;> simp at he ⊢; subst he; simp)
-    (by intro i; fin_cases i <;> (simp [Separated, clampedU, exTol]; try norm_num))
     exSA exSB exP_WF'.1 exP_WF'.2 exSA_wf exSB_wf
-    (by intro i; fin_cases i
-        · simpa using a0
-        · simpa using a1)
-    (by intro i; fin_cases i
-        · simpa using b0
-        · simpa using b1)
-    (fun h => absurd h (by simp)) (fun h => absurd h (by simp))
-  exact ⟨r, h1, h2, h3, (h4 0).2, (h4 1).2, h6⟩
+    (by intro i; fin_cases i <;> decide +kernel) (by intro i; fin_cases i <;> decide +kernel)
+    (by intro i; fin_cases i <;> decide +kernel)
+    (fun h => absurd h (by decide)) (fun h => absurd h (by decide))
+  refine ⟨r, h1, h2, h3, (h4 0).2, (h4 1).2, ?_, ?_, h6⟩
+  · have := (h4 0).1
+    have h' : r.1.basis 0 = unionBasis (exSA.basis 0).order (exSB.basis 0).order
+        (commonEntries (exSA.basis 0) (exSB.basis 0)) := this
+    rw [h']; decide +kernel
+  · have := (h4 1).1
+    have h' : r.1.basis 1 = unionBasis (exSA.basis 1).order (exSB.basis 1).order
+        (commonEntries (exSA.basis 1) (exSB.basis 1)) := this
+    rw [h']; decide +kernel
+
+/-- `C12_open_volumes_all_directions_partial` on two example VOLUMES (direction 0: `0,0,1,2,2` on `[0,2]`
+    against `0,0,4,4` on `[0,4]`; direction 2: order 2 against order 3): every hypothesis is decided by the
+    kernel (orders differ only in the LAST direction, so no `GrevilleOK` side condition arises); the call
+    with `direction=None` succeeds after three rounds, both results are well formed and carry the same
+    basis in all three directions (`0,0,1/2,1,1`; `0,0,1,1`; order 3 on `0,0,0,1,1,1`). -/
+example : ∃ r, makeIdentical exTol false false exVA exVB none = .ok r
+    ∧ C06.WF r.1 3 ∧ C06.WF r.2 3 ∧ (∀ i : Fin 3, r.2.basis i = r.1.basis i)
+    ∧ (r.1.basis 0).knots = #[0, 0, 1/2, 1, 1] ∧ (r.1.basis 1).knots = #[0, 0, 1, 1]
+    ∧ (r.1.basis 2).order = 3 ∧ (r.1.basis 2).knots = #[0, 0, 0, 1, 1, 1] := by
+  obtain ⟨r, h1, h2, h3, h4, _, _, _⟩ := C12_open_volumes_all_directions_partial exTol (by norm_num [exTol])
+    exVA exVB exV_WF.1 exV_WF.2 exVA_wf exVB_wf
+    (by intro i; fin_cases i <;> decide +kernel) (by intro i; fin_cases i <;> decide +kernel)
+    (by intro i; fin_cases i <;> decide +kernel)
+    (fun i k hik h => by
+      fin_cases i <;> fin_cases k <;> first | exact absurd hik (by decide) | exact absurd h (by decide))
+    (fun i k hik h => by
+      fin_cases i <;> fin_cases k <;> first | exact absurd hik (by decide) | exact absurd h (by decide))
+  have e0 : r.1.basis 0 = unionBasis (exVA.basis 0).order (exVB.basis 0).order
+      (commonEntries (exVA.basis 0) (exVB.basis 0)) := (h4 0).1
+  have e1 : r.1.basis 1 = unionBasis (exVA.basis 1).order (exVB.basis 1).order
+      (commonEntries (exVA.basis 1) (exVB.basis 1)) := (h4 1).1
+  have e2 : r.1.basis 2 = unionBasis (exVA.basis 2).order (exVB.basis 2).order
+      (commonEntries (exVA.basis 2) (exVB.basis 2)) := (h4 2).1
+  refine ⟨r, h1, h2, h3, fun i => (h4 i).2, ?_, ?_, ?_, ?_⟩
+  · rw [e0]; decide +kernel
+  · rw [e1]; decide +kernel
+  · rw [e2]; decide +kernel
+  · rw [e2]; decide +kernel
 
 /-- `C12_periodic_curves_partial` on an open segment and a `C^0`-periodic polyline (`n = 2 = p + k`
     functions): `lower_periodic` opens the polyline at the seam, both end on `0,0,1/2,1,1`, the segment
@@ -1071,6 +1095,18 @@ example : ∃ r, identicalDir exTol true true (exSeg, exPer) 0 = .ok r
     0 1 [((1 : ℚ)/2, 0, 1)] (by simp) hgap (exSeg, exPer) exSeg_wf exPer_wf hb1 0 hk hguard hseam hb2
   refine ⟨r, h1, ?_, h3, h4, h5⟩
   rw [h2]; decide +kernel
+
+/-- `C12_periodic_pair_partial` on a `C^0`-periodic quadratic curve on `[0,3]` (`n = 4 ≥ 3 + 0`) and a
+    `C^1`-periodic quadratic curve on `[0,4]` (`n = 4 ≥ 3 + 1`, simple seam knot): the call succeeds, both
+    end `C^0`-periodic of order 3 and are exact rescalings of their inputs on their domains. -/
+example : ∃ r, identicalDir exTol true true (exPPA, exPPB) 0 = .ok r
+    ∧ RescaledOn 1 0 (exPPA.basis 0).start (exPPA.basis 0).stop exPPA r.1
+    ∧ RescaledOn 1 0 (exPPB.basis 0).start (exPPB.basis 0).stop exPPB r.2
+    ∧ (r.1.basis 0).periodic = 0 ∧ (r.2.basis 0).periodic = 0 := by
+  obtain ⟨r, h1, h2, h3, _, _, h6, h7, _⟩ := C12_periodic_pair_partial (m := 1) exTol true true 0 (by decide)
+    (exPPA, exPPB) exPPA_wf exPPB_wf 0 1 (by decide) (by decide) (by decide) (by decide) (by decide) (by decide)
+    (fun h => absurd h (by decide)) (fun _ => by decide +kernel)
+  exact ⟨r, h1, h2, h3, h6, h7⟩
 
 /-- `C12_directions`: for these curves the explicit directions `0`, `'u'`, `'U'` are the same call,
     `'v'` is a `ValueError`, and `direction=None` is the one-step loop. -/
